@@ -248,6 +248,22 @@ func c13Model(active, inactive time.Duration, maxRetries int, minExpiry time.Dur
 func genC13(seed uint64, tier string) *plan.Plan {
 	r := rand.New(rand.NewPCG(seed, 0xc13))
 	pl := &plan.Plan{Cfg: map[string]int64{}}
+	if r.IntN(10) == 0 {
+		// Burst member: many flows expire in one scan while another goroutine ingests records for
+		// them. No linearizability search (too many keys): conservation - every delta that was
+		// ingested is exported exactly once - and the held-iff-scheduled bijection.
+		pl.Cfg["burst"] = 1
+		pl.Cfg["keys"] = int64(20 + r.IntN(130))
+		pl.Cfg["active_ms"], pl.Cfg["inactive_ms"] = 600000, 150
+		pl.Cfg["max_steps"] = 20_000_000
+		pl.Cfg["max_syncs"] = 2_000_000
+		pl.Cfg["burst_seed"] = int64(r.Uint64() >> 1)
+		pl.Cfg["burst_second_pct"] = int64(10 + r.IntN(90))
+		pl.Cfg["burst_scanners"] = int64(1 + r.IntN(2))
+		pl.Cfg["burst_ingesters"] = int64(1 + r.IntN(4))
+		genSchedule(r, pl, 8, 60000)
+		return pl
+	}
 	nk := 2 + r.IntN(2)
 	nt := 2 + r.IntN(3)
 	// one more 5-tuple than the tasks send valid records for: it only ever sees records that have to
@@ -354,7 +370,145 @@ func genC13(seed uint64, tier string) *plan.Plan {
 	return pl
 }
 
+// runC13Burst: see genC13.
+func runC13Burst(pl *plan.Plan, out *plan.Outcome) {
+	env := newEnv(pl, out, keepLogFlag)
+	nk := int(cfgOr(pl, "keys", 70))
+	r := rand.New(rand.NewPCG(uint64(cfgOr(pl, "burst_seed", 1)), 0xb0057))
+	ingested := make([]uint64, nk)
+	exported := make([]uint64, nk)
+	exports := 0
+	var sess *aggSession
+	mkRec := func(k int, end uint32, d uint64) aggRec {
+		return aggRec{Key: k, Node: nodeSingle, Cat: catIntra, Start: 10, End: end, Tot: [4]uint64{uint64(end) * 3, uint64(end) * 100, uint64(end), uint64(end) * 50},
+			Delta: [2]uint64{d, d / 2}, TCPState: "E", Corr: corrValues(k, nodeSingle, catIntra, false, int64(k))}
+	}
+	keyIndex := map[intermediate.FlowKey]int{}
+	scan := func() error {
+		return sess.ap.ForAllExpiredFlowRecordsDo(func(key intermediate.FlowKey, rec *intermediate.AggregationFlowRecord) error {
+			k, ok := keyIndex[key]
+			if !ok {
+				env.Violate("exported-unknown-flow", "", "the expiry callback was given %v, which no record was ever ingested for", key)
+				return nil
+			}
+			v, _ := fieldStr(rec.Record, "packetDeltaCount")
+			var d uint64
+			fmt.Sscan(v, &d)
+			exported[k] += d
+			exports++
+			sess.ap.ResetStatAndThroughputElementsInRecord(rec.Record)
+			return nil
+		})
+	}
+	env.Go("driver", func() {
+		s, err := newAggSession(env, "C13")
+		if err != nil {
+			out.Trouble = err.Error()
+			return
+		}
+		sess = s
+		for k := 0; k < nk; k++ {
+			keyIndex[aggKeyOf(k, false)] = k
+			d := uint64(1 + r.IntN(1000))
+			if err := s.ap.AggregateMsgByFlowKey(s.buildMessage(mkRec(k, 20, d), false)); err != nil {
+				out.Trouble = "ingest: " + err.Error()
+				return
+			}
+			ingested[k] += d
+		}
+		env.Sleep(time.Duration(cfgOr(pl, "inactive_ms", 150))*time.Millisecond + time.Millisecond)
+		// concurrent phase: scanners and an ingester
+		var second []int
+		for k := 0; k < nk; k++ {
+			if int64(r.IntN(100)) < cfgOr(pl, "burst_second_pct", 50) {
+				second = append(second, k)
+			}
+		}
+		r.Shuffle(len(second), func(a, b int) { second[a], second[b] = second[b], second[a] })
+		d2 := make([]uint64, len(second))
+		for i := range d2 {
+			d2[i] = uint64(1 + r.IntN(1000))
+		}
+		nsc := int(cfgOr(pl, "burst_scanners", 1))
+		ning := int(cfgOr(pl, "burst_ingesters", 1))
+		done := make(chan struct{}, nsc+ning)
+		for i := 0; i < nsc; i++ {
+			env.Go(fmt.Sprintf("scanner%d", i), func() {
+				defer func() { done <- struct{}{} }()
+				if err := scan(); err != nil {
+					env.Violate("scan-error", "", "ForAllExpiredFlowRecordsDo returned %v", err)
+				}
+			})
+		}
+		for g := 0; g < ning; g++ {
+			g := g
+			env.Go(fmt.Sprintf("ingester%d", g), func() {
+				defer func() { done <- struct{}{} }()
+				for i, k := range second {
+					if i%ning != g {
+						continue
+					}
+					if err := s.ap.AggregateMsgByFlowKey(s.buildMessage(mkRec(k, 30, d2[i]), false)); err != nil {
+						env.Violate("ingest-error", "", "AggregateMsgByFlowKey returned %v", err)
+						return
+					}
+					ingested[k] += d2[i]
+					env.Count("agg.records", 1)
+				}
+			})
+		}
+		for i := 0; i < nsc+ning; i++ {
+			Block("join", func() { <-done })
+		}
+		// drain: everything that is still held expires (inactive) within a few rounds
+		for round := 0; round < 6 && s.ap.GetNumFlows() > 0; round++ {
+			env.Sleep(time.Duration(cfgOr(pl, "inactive_ms", 150))*time.Millisecond + time.Millisecond)
+			if err := scan(); err != nil {
+				env.Violate("scan-error", "", "ForAllExpiredFlowRecordsDo returned %v", err)
+				break
+			}
+		}
+	})
+	res := env.Run()
+	if res == "stuck" && sess != nil {
+		env.Violate("operation-never-returns", "", "the burst run did not finish: every task is blocked and no timer is pending")
+		return
+	}
+	if res != "done" && out.Trouble == "" {
+		out.Trouble = "run ended: " + res
+		return
+	}
+	if sess == nil || out.Trouble != "" {
+		return
+	}
+	for k := 0; k < nk; k++ {
+		if exported[k] != ingested[k] {
+			env.Violate("delta-not-conserved", "", "flow %d of %d: records with packetDeltaCount summing to %d were ingested, the expiry callbacks (which reset the record each time) were handed %d in total", k, nk, ingested[k], exported[k])
+			break
+		}
+	}
+	heapItems, mapItems := sess.ap.VerifSnapshot()
+	if len(heapItems) != 0 || len(mapItems) != 0 {
+		env.Violate("held-iff-scheduled", "burst", "after every flow had been idle for several inactive timeouts and scanned, %d flows are still held and %d entries scheduled", len(mapItems), len(heapItems))
+	}
+	out.Add("c13.burst_runs", 1)
+	out.Add("c13.burst_exports", int64(exports))
+	out.Add("c13.burst_keys", int64(nk))
+	if exports >= 64 {
+		out.Add("probe.scan_exported_64_or_more_flows", 1)
+	}
+	out.Nontrivial = exports > nk/2
+	if out.Hash == "" {
+		out.Hash = fmt.Sprintf("seed-%d", pl.Seed)
+	}
+	out.Sample = map[string]any{"burst": true, "keys": nk, "exports": exports}
+}
+
 func runC13(pl *plan.Plan, out *plan.Outcome) {
+	if cfgOr(pl, "burst", 0) == 1 {
+		runC13Burst(pl, out)
+		return
+	}
 	env := newEnv(pl, out, keepLogFlag)
 	nt := int(cfgOr(pl, "tasks", 2))
 	var stamp atomic.Int64
